@@ -362,7 +362,7 @@ fn blanks(input: Span) -> IResult<Span, ()> {
     V("revert-7638715-eq-coarser-than-hash", [("@revert", "7638715")], {"C10": "HASHEQ:InpInternPool.store:order", "C09": "HASHEQ:DFA.transitions:order"}),
     V("revert-3888228-hopcroft-break", [("@revert", "3888228")], {"C03": "SKIPS:dfa::do_minimize:break^0"}),
     V("seed-C03-m2-trim-and-instead-of-or", [("@patch", "seeded/C03-m2/patch.diff")], {"C03": "SKIPS:dfa::keep_only_states_with_input_transitions"}),
-    V("seed-C03-m3-double-minimisation", [("@patch", "seeded/C03-m3/patch.diff")], {"C03": ""}),
+    V("seed-C03-m3-double-minimisation", [("@patch", "seeded/C03-m3/patch.diff")], {"C03": "MINONCE:dfa::DFAInternPool::intern"}),
     # ---------------- C10
     V("c10-std-hashset-in-dfa", [("src/dfa.rs", "use hashbrown::{HashMap, HashSet};", "use hashbrown::HashMap;\nuse std::collections::HashSet;")], {"C10": "HASHORD:dfa::dfa_from_regex"}),
     V("c10-env-var", [("src/lib.rs", '    let version = env!("COMPLGEN_VERSION");', '    let version = std::env::var("COMPLGEN_VERSION").unwrap_or_default();')], {"C10": "AMBIENT:signature"}),
